@@ -546,7 +546,7 @@ fn padded_names(totals: &mut Totals) {
 /// Depth and size far beyond the search bound: a scope stack hundreds of maps deep and a map with
 /// hundreds of variables, as scripts whose results are computed here.
 fn scale(tier: Tier, totals: &mut Totals) {
-    let sizes: Vec<u64> = tier.pick(vec![10, 70, 300], vec![10, 70, 300, 1000, 3000]);
+    let sizes: Vec<u64> = with_thresholds(tier.pick(vec![10, 70, 300], vec![10, 70, 300, 1000, 3000]), tier.pick(1024, 16384));
     for &d in &sizes {
         // d pushes, each level marks itself; d pops must come back through the marks in reverse order
         let text = format!(
